@@ -15,15 +15,15 @@ SchedConfigs ==
 
 SchedOK == { x \in SchedConfigs : x.firstTtl <= x.maxTtl /\ (x.dist = 0 \/ x.pathLen <= x.dist) }
 
-\* C03: noise of every kind (identifier-zero packets are outside the property, see MC_F7)
+\* C03: noise of every kind, including the responses of a tracer to which the command line gave identifier zero
 NoiseConfigs ==
     { [Base EXCEPT !.maxInflight = i, !.dist = d, !.pathLen = p, !.proto = pr, !.maxRounds = r, !.noise = n] :
         i \in {1, 2, 4}, d \in {0, 2, 3}, p \in {1, 2}, pr \in {"icmp", "udp"}, r \in {2},
-        n \in {{"dup", "late"}, {"foreign", "never"}, {"dup", "never"}} }
-NoiseMid == { x \in NoiseConfigs : x.maxInflight \in {1, 2} /\ x.noise \in {{"dup", "late"}, {"foreign", "never"}} }
+        n \in {{"dup", "late"}, {"foreign", "never", "zero"}, {"dup", "never"}} }
+NoiseMid == { x \in NoiseConfigs : x.maxInflight \in {1, 2} /\ x.noise \in {{"dup", "late"}, {"foreign", "never", "zero"}} }
 NoiseQuick == { [x EXCEPT !.maxRound = 2, !.maxTtl = 3] : x \in
                   { y \in NoiseConfigs : y.maxInflight = 2 /\ y.dist \in {0, 3} /\ y.pathLen = 2
-                                         /\ y.noise \in {{"dup", "late"}, {"foreign", "never"}} } }
+                                         /\ y.noise \in {{"dup", "late"}, {"foreign", "never", "zero"}} } }
 
 \* C09: faults at every step
 FaultConfigs ==
@@ -40,9 +40,9 @@ TimingConfigs ==
         mn \in 0..3, mx \in 0..3, g \in 0..2, rt \in 0..2, d \in {0, 2} }
 TimingOK == { x \in TimingConfigs : x.minRound <= x.maxRound }
 
-\* F7: identifier zero is accepted by every ICMP tracer (outside C03, which speaks of non-zero identifiers);
-\* kept as the non-vacuity instance of NoiseIsNoOp: it MUST be violated here
-F7Configs == { [Base EXCEPT !.noise = {"zero"}, !.maxRounds = 1] }
+\* F7 (repaired): before the repair identifier zero was accepted by every ICMP tracer; with the old behaviour switched
+\* back on NoiseIsNoOp MUST be violated (the non-vacuity instance of the action property)
+F7Configs == { [Base EXCEPT !.noise = {"zero"}, !.maxRounds = 1] @@ [legacyZero |-> TRUE] }
 
 \* hide the action-name ghost from the fingerprint
 View == <<c, s, pc, now, flight, h, pub>>
